@@ -1,5 +1,297 @@
-import MptModel.Impl.Nodes
-import MptModel.Spec.Forest
+/-
+  C14 — node trees stay structurally sound.
+
+  M = `Impl/Nodes.lean` (pointer store mirroring mptcore/node/*.c), S = `Spec/Forest.lean` (ordered forests).
+  The abstraction is the relation `Realises s tops` (`Lemmas/NodesOps.lean`): the store `s` lays out the
+  top-level sibling lists `tops` — `Real` fixes all four link fields, name and value of every node from the
+  forest, no handle occurs twice, every live record belongs to the forest, and the `free` log lists exactly
+  the dead records, each once.  `WF s := ∃ tops, Realises s tops`.
+
+  Shape of the refinement theorems (`abs_*`): on a store that realises the lists (given in decomposed form:
+  the lists the call talks about first, `rest` arbitrary; `Realises.perm` makes the order irrelevant) the C
+  function's model succeeds and the new store realises the lists changed by the forest operation.  Each of
+  them therefore also shows that `WF` is preserved (`wf_preserved_partial`).
+
+  Proved here: after, before, unlink, clear, destroy (incl. refusal), shallow clone; the link invariants in
+  pointer terms; release exactly once; shape equality of relabelled (cloned) forests.
+  Kept as `…_statement` only (exercised by the correspondence run, not proved): insert/add by position and by
+  name (the position search loops of node_insert.c/node_locate.c), tree/list clone on the pointer store, move.
+-/
+import MptModel.Lemmas.NodesClone
 namespace Mpt.C14
-theorem placeholder : True := trivial
+open Mpt Mpt.Nodes Mpt.Forest
+
+/-! ### example store: `0:a(1:b)` and the detached root `2:a=v` -/
+
+def exStore : Store :=
+  { nodes := [ { children := some 1, name := some "a" },
+               { parent := some 0, name := some "b" },
+               { name := some "a", value := some "v" } ],
+    freed := [] }
+
+def exTops : List Forest := [[.node 2 (some "a") (some "v") []], [.node 0 (some "a") none [.node 1 (some "b") none []]]]
+
+theorem exRealises : Realises exStore exTops := by
+  refine ⟨?_, by simp [exTops], ?_, by simp [exStore], ?_⟩
+  · intro l hl
+    simp only [exTops, List.mem_cons, List.not_mem_nil, or_false] at hl
+    rcases hl with rfl | rfl
+    · exact ⟨by simp, by simp [Real_cons, exStore, headId]⟩
+    · exact ⟨by simp, by simp [Real_cons, exStore, headId, Tree.id]⟩
+  · intro i n hn _
+    match i with
+    | 0 | 1 | 2 => simp [exTops]
+    | i + 3 => simp [exStore] at hn
+  · intro i
+    match i with
+    | 0 | 1 | 2 => simp [exStore]
+    | i + 3 => simp [exStore]
+
+/-! ### the link invariants in pointer terms -/
+
+/-- On a well-formed store every live record satisfies the invariants the property names: next/prev agree
+    and siblings share the parent, the first-child link leads to a node without predecessor that names this
+    node as parent, the parent is alive and its first-child link is the head of the sibling list.
+    ("No cycles, no node reachable from two places" is the existence of the finite forest with
+    duplicate-free handles inside `WF`.) -/
+theorem wf_links {s : Store} (h : WF s) : ∀ i n, s.Live i n → LinksAt s i n := by
+  obtain ⟨tops, hR⟩ := h
+  exact hR.links
+
+example : LinksAt exStore 1 { parent := some 0, name := some "b" } :=
+  wf_links ⟨exTops, exRealises⟩ 1 _ ⟨rfl, rfl⟩
+
+/-- the abstraction relation does not depend on the order in which the top-level lists are given -/
+theorem realises_perm {s : Store} {tops tops' : List Forest} (h : Realises s tops) (hp : tops'.Perm tops) :
+    Realises s tops' := h.perm hp
+
+/-- every node has a sibling list (so the `SibsAt` hypothesis of the theorems below can always be met) -/
+theorem sibs_exist {p : Nat} {l : Forest} (hnd : (ids l).Nodup) (hp : p ∈ ids l) : ∃ L j par, SibsAt p l L j par :=
+  sibsAt_exists hnd hp
+
+/-! ### abs_ops: the functions act on the abstraction as the forest operations -/
+
+/-- `mpt_gnode_after(p, x)`, `x` a detached root outside the structure of `p`: `x` is inserted behind `p` -/
+theorem abs_after {s : Store} {p x j : Nat} {n' : Name} {v' : Val} {cs' l0 L : Forest} {rest : List Forest}
+    {par : Option Nat}
+    (hR : Realises s ([.node x n' v' cs'] :: l0 :: rest)) (hat : SibsAt p l0 L j par) :
+    ∃ s', s.gnodeAfter (some p) x = .ok s' ∧
+      Realises s' (applyAt par (fun L => L.insertIdx (j + 1) (.node x n' v' cs')) l0 :: rest) :=
+  after_refines hR hat
+
+example : ∃ s', exStore.gnodeAfter (some 1) 2 = .ok s' ∧
+    Realises s' [[.node 0 (some "a") none [.node 1 (some "b") none [], .node 2 (some "a") (some "v") []]]] :=
+  by simpa [applyAt, modKids, Tree.children] using
+    abs_after (p := 1) (rest := []) exRealises (SibsAt.kids (q := 0) (tq := .node 0 (some "a") none [.node 1 (some "b") none []])
+      (j := 0) (by simp [find?]) (by rfl))
+
+/-- `mpt_gnode_before(p, x)`: `x` is inserted in front of `p` (and becomes the parent's first child when `p` was) -/
+theorem abs_before {s : Store} {p x j : Nat} {n' : Name} {v' : Val} {cs' l0 L : Forest} {rest : List Forest}
+    {par : Option Nat}
+    (hR : Realises s ([.node x n' v' cs'] :: l0 :: rest)) (hat : SibsAt p l0 L j par) :
+    ∃ s', s.gnodeBefore (some p) x = .ok s' ∧
+      Realises s' (applyAt par (fun L => L.insertIdx j (.node x n' v' cs')) l0 :: rest) :=
+  before_refines hR hat
+
+example : ∃ s', exStore.gnodeBefore (some 1) 2 = .ok s' ∧
+    Realises s' [[.node 0 (some "a") none [.node 2 (some "a") (some "v") [], .node 1 (some "b") none []]]] :=
+  by simpa [applyAt, modKids, Tree.children] using
+    abs_before (p := 1) (rest := []) exRealises (SibsAt.kids (q := 0) (tq := .node 0 (some "a") none [.node 1 (some "b") none []])
+      (j := 0) (by simp [find?]) (by rfl))
+
+/-- `mpt_node_unlink(x)`: `x` and everything below it leaves its sibling list and becomes a list of its own;
+    the result is the old successor.  (For a detached root nothing is linked and nothing changes.) -/
+theorem abs_unlink {s : Store} {x j : Nat} {l0 L : Forest} {rest : List Forest} {par : Option Nat} {t : Tree}
+    (hR : Realises s (l0 :: rest)) (hat : SibsAt x l0 L j par) (ht : L[j]? = some t)
+    (hne : applyAt par (fun L => L.eraseIdx j) l0 ≠ []) :
+    ∃ s', s.unlink x = .ok (s', headId (L.drop (j + 1))) ∧
+      Realises s' ([t] :: applyAt par (fun L => L.eraseIdx j) l0 :: rest) :=
+  unlink_refines hR hat ht hne
+
+example : ∃ s', exStore.unlink 1 = .ok (s', none) ∧
+    Realises s' [[.node 1 (some "b") none []], [.node 0 (some "a") none []], [.node 2 (some "a") (some "v") []]] :=
+  by simpa [applyAt, modKids, Tree.children, headId] using
+    abs_unlink (x := 1) (t := .node 1 (some "b") none []) (l0 := [.node 0 (some "a") none [.node 1 (some "b") none []]]) (rest := [[.node 2 (some "a") (some "v") []]])
+      (exRealises.perm (List.Perm.swap _ _ _))
+      (SibsAt.kids (q := 0) (tq := .node 0 (some "a") none [.node 1 (some "b") none []])
+        (j := 0) (by simp [find?]) (by rfl))
+      (by simp [Tree.children]) (by simp [applyAt, modKids])
+
+/-- `mpt_node_clear(x)`: the children of `x` are gone, everything else keeps its place -/
+theorem abs_clear {s : Store} {x : Nat} {l0 : Forest} {tx : Tree} {rest : List Forest} {fuel : Nat}
+    (hR : Realises s (l0 :: rest)) (hfx : find? x l0 = some tx) (hf : cost tx.children + 1 ≤ fuel) :
+    ∃ s', s.clear fuel x = .ok s' ∧ Realises s' (modKids x (fun _ => []) l0 :: rest) :=
+  let ⟨s', h1, h2, _⟩ := clear_refines hR hfx hf
+  ⟨s', h1, h2⟩
+
+/-- `mpt_node_destroy(x)` of a detached root: the tree is gone -/
+theorem abs_destroy {s : Store} {x : Nat} {n : Name} {v : Val} {cs : Forest} {rest : List Forest} {fuel : Nat}
+    (hR : Realises s ([.node x n v cs] :: rest)) (hf : cost cs + 2 ≤ fuel) :
+    ∃ s', s.destroy fuel x = .ok (s', true) ∧ Realises s' rest :=
+  let ⟨s', h1, h2, _⟩ := destroy_refines hR hf
+  ⟨s', h1, h2⟩
+
+/-- `mpt_node_destroy` refuses a node that still has a parent, a predecessor or a successor -/
+theorem destroy_linked_refused {s : Store} {x : Nat} {xn : Node} {fuel : Nat} (hx : s.Live x xn)
+    (hl : xn.parent.isSome ∨ xn.next.isSome ∨ xn.prev.isSome) : s.destroy (fuel + 1) x = .ok (s, false) :=
+  destroy_refused hx hl
+
+example : exStore.destroy exStore.fuel 1 = .ok (exStore, false) :=
+  destroy_linked_refused (xn := { parent := some 0, name := some "b" }) ⟨rfl, rfl⟩ (Or.inl rfl)
+
+/-- `mpt_node_clone(x)`: a new detached root with the same name and value -/
+theorem abs_node_clone {s : Store} {tops : List Forest} {x : Nat} {xn : Node}
+    (hR : Realises s tops) (hx : s.Live x xn) :
+    ∃ s', s.nodeClone x = .ok (s', s.nodes.length) ∧
+      Realises s' (tops ++ [[.node s.nodes.length xn.name xn.value []]]) :=
+  nodeClone_refines hR hx
+
+/-- the fuel both drivers pass to `clear`/`destroy` (`Store.fuel`) suffices on every well-formed store -/
+theorem fuel_suffices {s : Store} {tops : List Forest} (h : Realises s tops) {l : Forest} (hl : l ∈ tops) :
+    cost l + 2 ≤ s.fuel := by
+  have := h.cost_le hl
+  simp only [Store.fuel]
+  omega
+
+/-! ### wf_preserved -/
+
+/-- the full statement: every operation of the property keeps the store well-formed -/
+def wf_preserved_statement : Prop :=
+  ∀ (s : Store), WF s →
+    -- after / before / insert / add with a detached root `x` outside the structure of `p`
+    (∀ tops p x t l0 rest L j par (pos : Int) (byName : Bool), Realises s tops → tops.Perm ([t] :: l0 :: rest) → t.id = x →
+        SibsAt p l0 L j par →
+        (∀ s', s.gnodeAfter (some p) x = .ok s' → WF s') ∧ (∀ s', s.gnodeBefore (some p) x = .ok s' → WF s') ∧
+        (∃ s', s.add p pos x byName = .ok s' ∧ WF s') ∧ (∃ s', s.insert p pos x byName = .ok s' ∧ WF s')) ∧
+    -- unlink / clear / destroy / the three clones of any live node
+    (∀ x xn, s.Live x xn →
+        (∃ r, s.unlink x = .ok r ∧ WF r.1) ∧ (∃ s', s.clear s.fuel x = .ok s' ∧ WF s') ∧
+        (∃ r, s.destroy s.fuel x = .ok r ∧ WF r.1) ∧ (∃ r, s.nodeClone x = .ok r ∧ WF r.1) ∧
+        (∃ r, s.treeClone x = .ok r ∧ WF r.1) ∧ (∃ r, s.listClone s.fuel (some x) = .ok r ∧ WF r.1))
+
+/-- proved part: after, before, unlink, clear, destroy, shallow clone keep the store well-formed.
+    Missing w.r.t. `wf_preserved_statement`: insert/add (position and name search), tree/list clone. -/
+theorem wf_preserved_partial {s : Store} {tops : List Forest} (hR : Realises s tops) :
+    -- after / before
+    (∀ p x j n' v' cs' l0 L rest par, tops.Perm ([.node x n' v' cs'] :: l0 :: rest) → SibsAt p l0 L j par →
+        (∃ s', s.gnodeAfter (some p) x = .ok s' ∧ WF s') ∧ (∃ s', s.gnodeBefore (some p) x = .ok s' ∧ WF s')) ∧
+    -- unlink of a node with siblings or a parent
+    (∀ x j l0 L rest par t, tops.Perm (l0 :: rest) → SibsAt x l0 L j par → L[j]? = some t →
+        applyAt par (fun L => L.eraseIdx j) l0 ≠ [] → ∃ r, s.unlink x = .ok r ∧ WF r.1) ∧
+    -- clear of any node
+    (∀ x l0 tx rest, tops.Perm (l0 :: rest) → find? x l0 = some tx → ∃ s', s.clear s.fuel x = .ok s' ∧ WF s') ∧
+    -- destroy of a detached root
+    (∀ x n v cs rest, tops.Perm ([.node x n v cs] :: rest) → ∃ s', s.destroy s.fuel x = .ok (s', true) ∧ WF s') ∧
+    -- shallow clone
+    (∀ x xn, s.Live x xn → ∃ r, s.nodeClone x = .ok r ∧ WF r.1) := by
+  refine ⟨?_, ?_, ?_, ?_, ?_⟩
+  · intro p x j n' v' cs' l0 L rest par hp hat
+    have hR' := hR.perm hp.symm
+    obtain ⟨s1, h1, r1⟩ := after_refines hR' hat
+    obtain ⟨s2, h2, r2⟩ := before_refines hR' hat
+    exact ⟨⟨s1, h1, _, r1⟩, ⟨s2, h2, _, r2⟩⟩
+  · intro x j l0 L rest par t hp hat ht hne
+    obtain ⟨s1, h1, r1⟩ := unlink_refines (hR.perm hp.symm) hat ht hne
+    exact ⟨_, h1, _, r1⟩
+  · intro x l0 tx rest hp hfx
+    have hR' := hR.perm hp.symm
+    have hfu := fuel_suffices hR' (l := l0) (by simp)
+    have hsub : cost tx.children ≤ cost l0 := by
+      rw [cost_eq, cost_eq]
+      have hnd : (ids l0).Nodup := by
+        have := hR'.nodup
+        simp only [List.flatMap_cons] at this
+        exact (List.nodup_append.1 this).1
+      obtain ⟨A, B, h1, _⟩ := ids_modKids_split hnd hfx
+      rw [h1]
+      simp only [List.length_append]
+      omega
+    obtain ⟨s1, h1, r1, _⟩ := clear_refines (fuel := s.fuel) hR' hfx (by omega)
+    exact ⟨s1, h1, _, r1⟩
+  · intro x n v cs rest hp
+    have hR' := hR.perm hp.symm
+    have hfu := fuel_suffices hR' (l := [.node x n v cs]) (by simp)
+    obtain ⟨s1, h1, r1, _⟩ := destroy_refines (fuel := s.fuel) hR' (by simp only [cost] at hfu; omega)
+    exact ⟨s1, h1, _, r1⟩
+  · intro x xn hx
+    obtain ⟨s1, h1, r1⟩ := nodeClone_refines hR hx
+    exact ⟨_, h1, _, r1⟩
+
+example : ∃ s', exStore.destroy exStore.fuel 2 = .ok (s', true) ∧ WF s' :=
+  (wf_preserved_partial exRealises).2.2.2.1 2 _ _ _ _ (List.Perm.refl _)
+
+/-! ### abs_ops (summary statement) -/
+
+/-- the full statement of `abs_ops`: also insert/add by position and by name, tree/list clone and move act on
+    the abstraction as `Forest.St.add/insert/clone/move` do (these four are checked by the correspondence run only) -/
+def abs_ops_statement : Prop :=
+  ∀ (s : Store) (sp : Forest.St), Realises s sp.tops → sp.next = s.nodes.length →
+    (∀ p pos x byName sp', sp.add p pos x byName = some sp' → ∃ s', s.add p pos x byName = .ok s' ∧ Realises s' sp'.tops) ∧
+    (∀ p pos x byName sp', sp.insert p pos x byName = some sp' → ∃ s', s.insert p pos x byName = .ok s' ∧ Realises s' sp'.tops) ∧
+    (∀ x sp', sp.clone x 1 = some sp' → ∃ r, s.treeClone x = .ok r ∧ Realises r.1 sp'.tops) ∧
+    (∀ x sp', sp.clone x 2 = some sp' → ∃ r, s.listClone s.fuel (some x) = .ok r ∧ Realises r.1 sp'.tops) ∧
+    (∀ a b sp' m, sp.move a b = some (sp', m) → ∃ slot r, s.move s.fuel slot (some a) b = .ok r ∧ Realises r.1 sp'.tops)
+
+/-! ### released_once -/
+
+/-- On a well-formed store the `free` log has no duplicates and lists exactly the dead records:
+    nothing is released twice, and nothing dead is missing from the log. -/
+theorem released_log {s : Store} (h : WF s) :
+    s.freed.Nodup ∧ ∀ i, i ∈ s.freed ↔ ∃ n, s.nodes[i]? = some n ∧ n.alive = false := by
+  obtain ⟨tops, hR⟩ := h
+  exact ⟨hR.freedNodup, hR.freedIff⟩
+
+/-- `destroy` of a detached root and `clear` of any node release every node of the tree (resp. below the node)
+    exactly once: the log grows by a duplicate-free enumeration (post-order) of exactly those handles, the
+    call does not fault (a second `free` of a record is a fault in the model), and the result is well-formed. -/
+theorem released_once {s : Store} :
+    (∀ x n v cs rest fuel, Realises s ([.node x n v cs] :: rest) → cost cs + 2 ≤ fuel →
+      ∃ s', s.destroy fuel x = .ok (s', true) ∧ Realises s' rest ∧
+        s'.freed = s.freed ++ post [.node x n v cs] ∧ (post [.node x n v cs]).Perm (ids [.node x n v cs]) ∧
+        (post [.node x n v cs]).Nodup) ∧
+    (∀ x l0 tx rest fuel, Realises s (l0 :: rest) → find? x l0 = some tx → cost tx.children + 1 ≤ fuel →
+      ∃ s', s.clear fuel x = .ok s' ∧ Realises s' (modKids x (fun _ => []) l0 :: rest) ∧
+        s'.freed = s.freed ++ post tx.children ∧ (post tx.children).Perm (ids tx.children) ∧
+        (post tx.children).Nodup) := by
+  refine ⟨?_, ?_⟩
+  · intro x n v cs rest fuel hR hf
+    obtain ⟨s', h1, h2, h3⟩ := destroy_refines hR hf
+    refine ⟨s', h1, h2, h3, post_perm _, ?_⟩
+    have hnd := hR.nodup
+    simp only [List.flatMap_cons] at hnd
+    exact (post_perm _).nodup_iff.2 (List.nodup_append.1 hnd).1
+  · intro x l0 tx rest fuel hR hfx hf
+    obtain ⟨s', h1, h2, h3⟩ := clear_refines hR hfx hf
+    refine ⟨s', h1, h2, h3, post_perm _, ?_⟩
+    have hnd := hR.nodup
+    simp only [List.flatMap_cons] at hnd
+    exact (post_perm _).nodup_iff.2 (find?_children_nodup (List.nodup_append.1 hnd).1 hfx)
+
+example : ∃ s', exStore.clear exStore.fuel 0 = .ok s' ∧
+    Realises s' (modKids 0 (fun _ => []) [.node 0 (some "a") none [.node 1 (some "b") none []]] :: [[.node 2 (some "a") (some "v") []]]) ∧
+    s'.freed = [] ++ post [.node 1 (some "b") none []] ∧
+    (post [.node 1 (some "b") none []]).Perm (ids [.node 1 (some "b") none []]) ∧ (post [.node 1 (some "b") none []]).Nodup :=
+  released_once.2 0 _ (.node 0 (some "a") none [.node 1 (some "b") none []]) _ exStore.fuel
+    (exRealises.perm (List.Perm.swap _ _ _)) (by simp [find?]) (by simp [cost, Tree.children, Store.fuel, exStore])
+
+/-! ### clone_equal -/
+
+/-- A relabelled copy (what `clone tree`/`clone list` produce in S) has the same shape, names and values as its
+    source at every depth, and fresh consecutive handles. -/
+theorem clone_equal (l : Forest) (k : Nat) :
+    shape (relabel l k).1 = shape l ∧ ids (relabel l k).1 = List.range' k (ids l).length :=
+  ⟨shape_relabel l k, (ids_relabel l k).1⟩
+
+example : shape (relabel [.node 0 (some "a") none [.node 1 (some "b") none []]] 7).1 =
+    shape [.node 0 (some "a") none [.node 1 (some "b") none []]] := (clone_equal _ 7).1
+
+/-- the full statement of `clone_equal` on the pointer store: `mpt_tree_clone`/`mpt_list_clone` realise the
+    relabelled forest (same shape at every depth).  Proved only for the shallow clone (`abs_node_clone`);
+    the deep clones are compared with S by the correspondence run (depth up to 5). -/
+def clone_equal_statement : Prop :=
+  ∀ (s : Store) (tops : List Forest) (x : Nat) (l0 : Forest) (rest : List Forest) (L : Forest) (j : Nat) (par : Option Nat) (t : Tree),
+    Realises s tops → tops.Perm (l0 :: rest) → SibsAt x l0 L j par → L[j]? = some t →
+    (∃ r, s.treeClone x = .ok r ∧ Realises r.1 (tops ++ [(relabel [t] s.nodes.length).1])) ∧
+    (∃ r, s.listClone s.fuel (some x) = .ok r ∧ Realises r.1 (tops ++ [(relabel (L.drop j) s.nodes.length).1]))
+
 end Mpt.C14
